@@ -178,7 +178,7 @@ def run(tier, scratch, t0, replay=None):
             continue
         vs_, variant = k.split("/")
         t = main["tables"].get(modname)
-        if variant == "float":
+        if variant == "float" or variant.startswith("micro"):
             variant = None
         if t is None or ".".join(str(x) for x in t["version_tuple"][:2]) != vs_ or t["is_pypy"] != (variant == "pypy"):
             res.mismatches.append({"key": "C09|lookup|get_opcode_module(%s)->%s" % (k, modname.split(".")[-1]),
